@@ -630,7 +630,10 @@ MIXED_WRAPPERS = ["List[%s]", "Dict[str, %s]", "Tuple[%s, int]", "Tuple[%s]", "S
 MIXED_LOCAL = ["Job", "Zed", "Pool"]                                   # resolved: .cls set
 MIXED_TYPING = ["Hashable", "Sized", "Sequence[str]", "Iterable[int]"]  # typing.*: stays unresolved
 MIXED_BUILTIN = ["int", "str", "bytes"]                                 # resolved against the builtins
-MIXED_MODULES = ["shapes", "utils", "a.b", "zz.mod", "typing_ext", "t", "u", "typinh", "typinf.x"]
+# package modules ("x.__init__") are renamed by SerializeAst (RenameModuleVisitor) while their local classes are
+# RESOLVED ClassTypes sitting inside already-hashed unions / generics
+MIXED_MODULES = ["shapes", "pkg.__init__", "utils", "zz.sub.__init__", "a.b", "zz.mod", "typing_ext", "t", "u", "typinh",
+                 "typinf.x"]
 
 
 def mixed_union(r, depth=0):
@@ -664,6 +667,53 @@ def mixed_cases(env, r, n_random):
     text = MIXED_TEMPLATE % {"u%d" % k: mixed_union(r) for k in range(7)}
     out.append(("mixed:%d" % i, text, MIXED_MODULES[i % len(MIXED_MODULES)] if i < 2 * len(MIXED_MODULES) else r.choice(MIXED_MODULES)))
   return out
+
+
+def hash_law_failure(env, a_ast, b_ast):
+  """Equal type nodes of two ASTs must hash equally (set/dict de-duplication across a decoded and a prepared AST)."""
+  pa, pb = collect_types(env, a_ast), collect_types(env, b_ast)
+  seen = {}
+  for x in pa:
+    seen.setdefault(x, x)                   # hash-then-eq lookup, as a set does
+  for y in pb:
+    for x in pa:
+      if x == y and hash(x) != hash(y):
+        return "%s: equal nodes hash differently (%d vs %d)" % (type(x).__name__, hash(x), hash(y))
+    if any(x == y for x in pa) and y not in seen:
+      return "%s: a node equal to a member is not found in the set of the other AST's nodes" % type(y).__name__
+  return None
+
+
+def rename_leg(env, res, items, stats):
+  """The module-rename path: (a) a stub serialised under one module name and loaded under another
+  (EnsureAstName(fix=True), what the pickled-pyi loader does) must give the declarations that serialising the same
+  text under the new name gives; (b) equal type nodes of the renamed and the directly built AST hash equally."""
+  n = 0
+  for label, text, mod in items:
+    new = "renamed." + mod.replace(".__init__", "") + "_r"
+    try:
+      sa_old = env.pickle_utils.DecodeAst(env.pickle_utils.Encode(
+          env.serialize_ast.SerializeAst(build_exportable(env, text, mod))))
+      renamed = env.serialize_ast.EnsureAstName(sa_old, new, fix=True).ast
+      direct = env.pickle_utils.DecodeAst(env.pickle_utils.Encode(
+          env.serialize_ast.SerializeAst(build_exportable(env, text, new)))).ast
+    except Exception as e:  # pylint: disable=broad-except
+      res.obligation("rename-leg-runs", False, "%s (%s): %s: %s" % (label, mod, type(e).__name__, e))
+      return
+    n += 1
+    canon = lambda a: a.Visit(env.pytd_visitors.CanonicalOrderingVisitor())
+    fail = None
+    if renamed.name != new:
+      fail = "renamed AST is called %r" % renamed.name
+    elif not env.pytd_utils.ASTeq(canon(renamed), canon(direct)):
+      fail = "declarations after EnsureAstName(fix=True) differ from those serialised under the new name (ASTeq)"
+    else:
+      fail = hash_law_failure(env, renamed, direct)
+    if fail and len(res.violations) < 3:
+      res.violation("rename:" + fail.split(":")[0][:50],
+                    "%s serialised as %r and loaded as %r: %s" % (label, mod, new, fail),
+                    {"kind": "rename", "text": text, "module": mod, "new_module": new})
+  stats["rename_leg_asts"] = n
 
 
 def parse_pyi(env, text, name):
@@ -899,6 +949,7 @@ def run(res):
     except Exception as e:  # pylint: disable=broad-except
       res.obligation("generator:mixed-resolution-stub-builds", False, "%s (%s): %s: %s" % (label, mod, type(e).__name__, e))
   stats["mixed_resolution_asts"] = n_mixed
+  rename_leg(env, res, mixed_cases(env, common.rng(res.seed, "c12-rename"), 60 if thorough else 8), stats)
   em, loader = emitted_asts(env, len(PROGRAMS) if thorough else 3, res)
   for name, ast, rp in em:
     cases.append((name, ast, rp, True))
@@ -1652,6 +1703,13 @@ def replay(res, path):
       fail = "decoded SerializableAst differs structurally from the one encoded"
     print("round trip:", fail or "ok")
     return 1 if fail else 0
+  if kind == "rename":
+    r2 = common.Result("C12", "quick", 0)
+    r2.known = {}
+    rename_leg(env, r2, [("replay", rp["text"], rp["module"])], {})
+    print("module %r serialised, then loaded as %r:" % (rp["module"], rp["new_module"]),
+          "VIOLATED: " + r2.violations[0]["what"] if r2.violations else "same declarations, equal nodes hash equally")
+    return 1 if r2.violations else 0
   if kind == "eqhash-resolved":
     pool, ast = resolved_pool(env)
     if rp.get("pickle"):
